@@ -36,6 +36,8 @@ for name, d in docs:
     for k, v in c.get("known_findings_excluded", {}).items():
         cov["known_findings_excluded"][k] = cov["known_findings_excluded"].get(k, 0) + v
     cov["inconclusive"] += c.get("inconclusive", [])
+    if c.get("distinct_cap_reached"):
+        cov["distinct_cap_reached"] = True
     extra = {k: v for k, v in c.items() if k not in cov and k not in ("profile", "engine", "exhaustive")}
     cov["parts"].append({"part": name, "evaluations": c.get("evaluations", 0),
                          "distinct_nontrivial": c.get("distinct_nontrivial", 0),
@@ -47,7 +49,7 @@ for name, d in docs:
     violations += d.get("violations", 0)
     seed, level = d.get("seed", 0), d.get("level", level)
 cov["distinct_nontrivial"] = sum(per_engine.values())
-cov["rule"] = " || ".join(rules) + " || distinct_nontrivial counts each engine once (maximum over build profiles), summed over engines"
+cov["rule"] = " || ".join(rules) + " || distinct_nontrivial counts each engine once (maximum over build profiles), summed over engines" + (" || the distinct-case set is capped at 4 000 000 fingerprints per engine: the reported number is a lower bound" if cov.get("distinct_cap_reached") else "")
 cov["exhaustive"] = False
 cov["exhaustive_sub_checks"] = sorted(k for k, v in cov["sub_checks"].items() if v.get("exhaustive"))
 out = {"property_id": pid, "tier": tier, "seed": seed, "level": level, "coverage": cov,
